@@ -115,7 +115,7 @@ CLAIMS["C07"] = {
 CLAIMS["C08"] = {
     "text": "Theorems over the server endpoint model for EVERY stimulus list: ids of created streams are pairwise strictly increasing and bounded by lastSeen "
             "(C08_ids_increasing), reused/active ids end the tunnel (C08_refuse_reused), frames for never-created ids end the tunnel (C08_never_created), frames for finished "
-            "ids change nothing (C08_ignore_finished), dispatch picks exactly the descriptor named after the first slash, unary before stream (C08_dispatch); client: allocated "
+            "ids change nothing (C08_ignore_finished), dispatch picks exactly the descriptor named after the first slash, unary before stream (C08_dispatch), every declared method is found under /service/method (C08_registered_found), undeclared ones are Unimplemented (C08_unknown_unimplemented), malformed iff no slash after the optional leading one (C08_malformed_iff); client: allocated "
             "ids strictly increase and new_stream is the first frame of its id (C08_client_ids_increasing, C08_client_new_stream_first). Concurrent callers (L-atomic model TunnelModel/IdAlloc.lean: "
             "n goroutines, actions lock / allocate (possibly failing after the increment) / send / unlock, EVERY schedule): ids reach the wire strictly increasing and distinct "
             "(C08_concurrent_ids_increasing), counter-example without the lock (C08_unguarded_out_of_order); the model's premise is regenerated from the sources and decided by the kernel: the "
